@@ -93,7 +93,7 @@ Local Notation msg_typed := (msg_typed D teq).
 Local Notation cfg_typed := (cfg_typed D F teq).
 
 Lemma proc_typed_next Δ ps b n n' : proc_typed Δ (Proc ps b n) -> proc_typed Δ (Proc ps b n').
-Proof. intros [x [s [rs H]]]. exists x, s, rs. exact H. Qed.
+Proof. intros [s [rs H]]. exists s, rs. exact H. Qed.
 
 (* what an effect of process `self` (in state p) must satisfy to keep the configuration typed *)
 Definition eff_base (p : proc) (e : effect) : nat :=
